@@ -355,7 +355,7 @@ pub fn run(ctx: &Ctx) -> i32 {
     }
 
     // B: random pairs
-    let cases = if ctx.thorough() { 1_000_000 } else { 100_000 };
+    let cases = if ctx.thorough() { 20_000_000 } else { 100_000 };
     let strat = (ent_strategy(), ent_strategy(), 0u8..8);
     let wcell = std::cell::RefCell::new(World::new());
     search(ctx, "c27", cases, &strat, |(a, b, _)| enc(a, b), |(a, b, mode)| {
